@@ -934,6 +934,13 @@ class Summariser:
         yield truth, {}, None
 
     def _const(self, t: ast.AST) -> Optional[bool]:
+        if isinstance(t, ast.Compare) and len(t.ops) == 1 and not (isinstance(t.left, ast.Constant) and isinstance(t.comparators[0], ast.Constant)):
+            # signed number literals (-1 is a unary minus applied to 1)
+            def lit(x):
+                return ast.Constant(value=-x.operand.value) if isinstance(x, ast.UnaryOp) and isinstance(x.op, ast.USub) and isinstance(x.operand, ast.Constant) and isinstance(x.operand.value, (int, float)) else x
+            l, r = lit(t.left), lit(t.comparators[0])
+            if isinstance(l, ast.Constant) and isinstance(r, ast.Constant):
+                t = ast.Compare(left=l, ops=t.ops, comparators=[r])
         try:
             if isinstance(t, ast.Compare) and len(t.ops) == 1 and isinstance(t.left, ast.Constant) and isinstance(t.comparators[0], ast.Constant):
                 a, b, op = t.left.value, t.comparators[0].value, t.ops[0]
